@@ -10,7 +10,8 @@ ORACLE = {"05": sc.oracle_C05, "06": sc.oracle_C06_full, "07": sc.oracle_C07}["0
 
 def run(ck):
     sc.run_property(ck, ORACLE, MODES)
-    ck.run_fixed({"every_registration_of_a_component_is_torn_down": "C05:resource-teardown"})
+    ck.run_fixed({"every_registration_of_a_component_is_torn_down": "C05:resource-teardown",
+                  "factories_waiting_on_each_other_complete": "C05:acyclic-pattern-failed"})
 
 
 def replay(ck, obj):
